@@ -1795,10 +1795,11 @@ static void vi(void)
 		vi_wfix();
 		if (mod)
 			xcol = vi_off2col(xb, xrow, xoff);
-		if (xcol >= xleft + xcols)
-			xleft = xcol - xcols / 2;
-		if (xcol < xleft)
-			xleft = xcol < xcols ? 0 : xcol - xcols / 2;
+		n = ren_cursor(lbuf_get(xb, xrow), xcol);	/* where the cursor is shown */
+		if (n >= xleft + xcols)
+			xleft = n - xcols / 2;
+		if (n < xleft)
+			xleft = n < xcols ? 0 : n - xcols / 2;
 		vi_wait();
 		term_record();
 		ru = (xru & 1) || ((xru & 2) && w_cnt > 1) || ((xru & 4) && opath != ex_path());
